@@ -38,9 +38,11 @@ ASSUMPTIONS = [
 ]
 MIN_COUNTERS = {
     'quick': {'rt_resumptions_checked': 2000, 'nrt_resumptions_checked': 3000,
-              'rt_programs_finished': 40, 'nrt_programs': 200},
+              'rt_programs_finished': 40, 'nrt_programs': 200,
+              'rt_hand_driven_steps_from_thread_checked': 10},
     'thorough': {'rt_resumptions_checked': 100000, 'nrt_resumptions_checked': 200000,
-                 'rt_programs_finished': 2000, 'nrt_programs': 20000},
+                 'rt_programs_finished': 2000, 'nrt_programs': 20000,
+                 'rt_hand_driven_steps_from_thread_checked': 300},
 }
 FEATURES = ('tempo', 'cond', 'flow', 'call', 'embed', 'resched', 'beats', 'reenter',
             'replay', 'yinf', 'ahead')
@@ -234,11 +236,15 @@ def run_rt(spec, acc):
             # batch runs (the clocks are busy then)
             probes = []
             pstop = [False]
+            perr = []
 
             def prober(prng=random.Random(seed + case)):
-                while not pstop[0] and len(probes) < 150:
-                    probes.extend(thread_sched_probes(clk, main, prng, tcx))
-                    time.sleep(prng.choice([0, 0.0005, 0.002]))
+                try:
+                    while not pstop[0] and len(probes) < 150:
+                        probes.extend(thread_sched_probes(clk, main, prng, tcx))
+                        time.sleep(prng.choice([0, 0.0005, 0.002]))
+                except Exception as e:      # the prober itself failed: say so
+                    perr.append(f'{type(e).__name__}: {e}')
             pth = threading.Thread(target=prober, daemon=True, name='vf-prober')
             pth.start()
             for k, (r, _) in enumerate(runs):
@@ -256,11 +262,23 @@ def run_rt(spec, acc):
             with main._main_lock:
                 snap = [(r, p, r.done) for r, p in runs]
                 psnap = [dict(p) for p in probes]
+            for e_ in perr:
+                acc.mark_inconclusive('prober thread failed: ' + e_[:200])
             for p in psnap:
                 if not p['obs']:
                     acc.count('rt_thread_sched_probes_unfinished')
                     continue
                 acc.count('rt_thread_sched_probes_checked')
+                if p['how'] == 'Routine.next-from-thread':
+                    for c0, now, c1 in p['steps']:
+                        acc.count('rt_hand_driven_steps_from_thread_checked')
+                        if now is None or not all(c0 - 1e-6 <= x <= c1 + 1e-6 for x in now):
+                            acc.violation(
+                                'C05/hand-driven-routine-step-not-at-the-present-of-the-call/rt',
+                                {'call_begin': c0, 'call_end': c1, 'observed': now,
+                                 'behind_by': None if now is None else c0 - min(now)})
+                            break
+                    continue
                 lo, hi, unit = p['lo'], p['hi'], p['unit']
                 t0 = p['obs'][0]
                 if p['how'].startswith('Routine'):
@@ -353,7 +371,29 @@ def thread_sched_probes(clk, main, rng, tcx):
     for _ in range(rng.randint(1, 3)):
         how = rng.choice(['SystemClock.sched', 'SystemClock.sched_abs',
                           'TempoClock.sched', 'TempoClock.sched_abs',
-                          'Routine.play-default-clock', 'Routine.run-default-clock'])
+                          'Routine.play-default-clock', 'Routine.run-default-clock',
+                          'Routine.next-from-thread'])
+        if how == 'Routine.next-from-thread':
+            # a routine driven by hand from this plain thread: each step runs at
+            # this thread's time = the physical present of the call, however long
+            # ago the library last looked at the time
+            hp = {'how': how, 'steps': [], 'obs': [None], 'lo': 0, 'hi': 0, 'unit': 'secs',
+                  'deltas': [], 'delta': 0}
+
+            def hand():
+                while True:
+                    hp['now'] = (clk.SystemClock.seconds, main.current_tt._seconds)
+                    yield 0
+            hr = Routine(hand)
+            for _ in range(rng.randint(1, 3)):
+                time.sleep(rng.choice([0.002, 0.01, 0.03]))
+                _IN_TEMPO_STEP.wait(0.01)
+                c0 = main.elapsed_time()
+                hr.next()
+                c1 = main.elapsed_time()
+                hp['steps'].append((c0, hp.get('now'), c1))
+            out.append(hp)
+            continue
         d = rng.choice([0, 0.001, 0.004, 0.02])
         deltas = [rng.choice([0, 0.001, 0.003, 0.01]) for _ in range(rng.randint(1, 4))]
         clock = clk.SystemClock if how.startswith(('System', 'Routine')) else rng.choice(tcx)
